@@ -169,11 +169,12 @@ class Formatter(FormatterInterface):
 
     def _format_number(self, x):
         """Format a number."""
-        # Use 16sf for precision (good for float64 or less)
+        # Use 17sf: the smallest number of significant digits for which every
+        # float64 reads back exactly (16 digits can be up to 4 ulp off)
         if isinstance(x, complex):
-            return f"({x.real:.16}+I*{x.imag:.16})"
+            return f"({x.real:.17}+I*{x.imag:.17})"
         elif isinstance(x, float):
-            return f"{x:.16}"
+            return f"{x:.17}"
         return str(x)
 
     def _build_initializer_lists(self, values):
